@@ -75,7 +75,8 @@ def run(F, R, tier):
             r1.require("Rfc3339" in fmt, (fn, "rfc3339"), "parse does not use the Rfc3339 format description")
         # no panicking offset conversion
         r1.require(not any(f.endswith("OffsetDateTime::to_offset") for f in H.called_fns(H.root(h))), (fn, "to_offset"), "parse uses the panicking OffsetDateTime::to_offset")
-    r1.floor(5)
+    # with the `custom_time` feature now_utc delegates to the user's hook and constructs nothing itself
+    r1.floor(4 if F.has_feature("identity_core", "custom_time") else 5)
 
     # ------------------------------------------------------------------ R2 checked arithmetic
     r2 = R.rule("C13-R2", "T2+T3", "checked_add/checked_sub return Some only through from_unix(result.unix_timestamp()) ✓; Duration constructors widen to i64 before scaling (no u32 arithmetic)")
